@@ -218,15 +218,27 @@ private:
     }
 
     uint64_t uv = static_cast<uint64_t>(v);
-    if (std::is_unsigned_v<RetT>) {
-      if (uv & (~mask_for_type<RetT>)) {
-        throw std::invalid_argument(exc_prefix(id) + "unsigned value out of range");
+    if constexpr (sizeof(RetT) < sizeof(uint64_t)) {
+      // strtoull applies a leading '-' by negating modulo 2^64, so the 64-bit
+      // image alone cannot tell 18446744073709551615 from -1, or
+      // -18446744073709551615 from 1. Range-check the sign and the magnitude.
+      size_t sign_offset = text.find_first_not_of(" \t\n\v\f\r");
+      bool negative = (sign_offset != std::string::npos) && (text[sign_offset] == '-');
+      uint64_t magnitude = negative ? (0 - uv) : uv;
+      if (std::is_unsigned_v<RetT>) {
+        if ((negative && (magnitude != 0)) || (magnitude & (~mask_for_type<RetT>))) {
+          throw std::invalid_argument(exc_prefix(id) + "unsigned value out of range");
+        }
+      } else {
+        if (magnitude > (mask_for_type<RetT> >> 1) + (negative ? 1 : 0)) {
+          throw std::invalid_argument(exc_prefix(id) + "signed value out of range");
+        }
       }
+    }
+    // 64-bit targets keep the 64-bit two's-complement image of the numeral
+    if (std::is_unsigned_v<RetT>) {
       return uv;
     } else {
-      if (((uv & (~(mask_for_type<RetT> >> 1))) != 0) && ((uv & (~(mask_for_type<RetT> >> 1))) != (~(mask_for_type<RetT> >> 1)))) {
-        throw std::invalid_argument(exc_prefix(id) + "signed value out of range");
-      }
       return v;
     }
   }
